@@ -189,6 +189,16 @@ def readPacket (bs : Bytes) : Except Exn (Option (Nat × Bytes × Bytes)) :=
     | t :: body =>
       if r3.length < pad then .ok none else .ok (some (t.toNat, body, r3.drop pad))
 
+/-- `read_packet` called again and again on one connection whose data has all arrived (however it was segmented): the packets
+    read until the data runs out or a framing exit ends it (`fuel` ≥ number of packets; every packet consumes ≥ 5 bytes) -/
+def readPackets : Nat → Bytes → List (Nat × Bytes) × Option Exn
+  | 0, _ => ([], none)
+  | fuel + 1, bs =>
+    match readPacket bs with
+    | .error e => ([], some e)
+    | .ok none => ([], none)
+    | .ok (some (t, body, rest)) => let r := readPackets fuel rest; ((t, body) :: r.1, r.2)
+
 /-- an independently written RFC 4253 §6 decoder (spec side): uint32 packet_length, byte
     padding_length, payload, ≥ 4 bytes of padding, total a multiple of 8, nothing left over -/
 def rfcDecode (bs : Bytes) : Option Bytes :=
